@@ -491,6 +491,49 @@ func runC15(c *core.Ctx) {
 			c.Sample(map[string]any{"food.yaml": clip(w.BookText, 400), "log.yaml": clip(w.LogText, 400), "checks": "colour x6, flag position, interleaving x2, shorten, desc x2"})
 		}
 	})
+	// the grand total of bal -s under the collapse modes, where the order of the additions matters at two decimals
+	// (round 12, K15: the footer re-summed from the top rows of the tree): categories that take turns in the log with
+	// amounts that cancel across a small one
+	if !c.InChild() && c.HR != "" {
+		dir := c.Work + "/collapse-footer"
+		for bi, big := range []string{"10000000000000000", "9007199254740992", "100000000000000000", "4503599627370496.5"} {
+			for si, small := range []string{"1", "0.5", "3"} {
+				for oi, order := range [][]string{{"a/x", "b/y", "a/x"}, {"b/y", "a/x", "c", "a/x"}, {"a/x", "b/y", "b/z", "a/x", "b/y"}} {
+					var sb strings.Builder
+					nbig := 0
+					for k, food := range order {
+						amount := small
+						if food == "a/x" {
+							amount = []string{big, "-" + big}[nbig%2]
+							nbig++
+						}
+						fmt.Fprintf(&sb, "2021/01/%02d:\n  %s: %s\n", k+1, food, amount)
+					}
+					files := map[string]string{"food.yaml": "a/x:\n  kcal: 1\nb/y:\n  kcal: 1\nb/z:\n  kcal: 1\nc:\n  kcal: 1\n", "log.yaml": sb.String()}
+					run.WriteFiles(dir, files)
+					pre := []string{"--no-color", "-d", "food.yaml", "-l", "log.yaml", "bal", "-s", "kcal"}
+					plain := run.Exec(c.HR, pre, run.ExecOpts{Dir: dir})
+					pb, e0 := obs.ParseBal(plain.Out)
+					c.Eval(1)
+					if e0 != nil || plain.Exit != 0 || !pb.HasGrand {
+						continue
+					}
+					for _, mode := range []string{"-c", "--collapse-last"} {
+						margs := append(append([]string{}, pre...), mode)
+						alt := run.Exec(c.HR, margs, run.ExecOpts{Dir: dir})
+						ab, e2 := obs.ParseBal(alt.Out)
+						c.Eval(1)
+						c.Count("collapse_footer_cases_with_cancelling_amounts", 1)
+						c.Nontrivial("collapse-footer", fmt.Sprint(bi, si, oi), mode)
+						if e2 != nil || alt.Exit != 0 || ab.HasGrand != pb.HasGrand || ab.GrandRaw != pb.GrandRaw {
+							c.Violation("bal "+mode+"|layout-changes-content", fmt.Sprintf("grand total %q (exit %d), the plain tree shows %q", ab.GrandRaw, alt.Exit, pb.GrandRaw),
+								caseDoc{Files: files, Args: margs, Expected: resDoc(plain), Observed: resDoc(alt)})
+						}
+					}
+				}
+			}
+		}
+	}
 	// a report while another report - other files, other options - is alive in the same process
 	nestedReports(c, pool, c.N(120, 1500), nestedRegShape)
 	jobs, deaths := pool.Stats()
